@@ -166,8 +166,6 @@ def run_unit(name, tier, seed):
         pass
     if not funcs:
         raise Undecided('unit %s: verus reported no verified function (zero obligations)' % name)
-    if rlimit:
-        raise Undecided('unit %s: solver resource limit: %s' % (name, rlimit[0][:200]))
     failed_funcs = [f for f in funcs if not f['success']]
     if g.get('guessed') and fails:
         gf = {x.split('/')[-1] for x in g['guessed']}
@@ -176,12 +174,12 @@ def run_unit(name, tier, seed):
             raise Undecided('unit %s: the code around an annotation of %s changed shape (new statements at the anchor); '
                             'the annotation was placed by a guess and the function no longer verifies - cannot tell a '
                             'broken proof from a broken property' % (name, hit[0]['function']))
-    if vr.get('errors', 0) > 0 and not fails:
+    if vr.get('errors', 0) > 0 and not fails and not rlimit:
         raise Undecided('unit %s: verus reports %d errors but none could be located' % (name, vr.get('errors')))
     out = dict(name=name, gen=g, gm=gm, verus=r, vr=vr, fails=fails, funcs=funcs, failed_funcs=failed_funcs,
                path=path, wall=time.time() - t0, smt_ms=res.get('times-ms', {}).get('smt', {}).get('total'),
                total_ms=res.get('times-ms', {}).get('total'), trusted=trusted_scan(g['text']),
-               rewrites=g['ctx'].log, file_sha=g['ctx'].file_sha, flags=flags, mods=mods)
+               rewrites=g['ctx'].log, file_sha=g['ctx'].file_sha, flags=flags, mods=mods, rlimit=rlimit)
     _unit_cache[key] = out
     return out
 
@@ -274,6 +272,11 @@ def check(prop, tier, seed):
     for ur in units:
         for f in ur['fails']:
             (mine if prop in f['tags'] else others).append(f)
+    # a solver resource limit somewhere in these units leaves the property undecided -- unless an obligation of the
+    # property definitely failed (then that is reported; the exhausted query is mentioned in the evidence)
+    rl = ['%s: %s' % (u['name'], m_[:160]) for u in units for m_ in u.get('rlimit', [])]
+    if rl and not mine:
+        raise Undecided('solver resource limit: ' + rl[0])
     # vacuity
     canaries = []
     canary_units = cfg['units'] if tier == 'thorough' else cfg['units'][:1] if cfg.get('canary_quick', True) else []
@@ -415,6 +418,7 @@ def evidence(prop, cfg, tier, seed, units, mine, others, canaries, wres, violati
         'witness_replays': [{k: w[k] for k in ('id', 'status', 'detail')} for w in wres],
         'known_findings_reported': kf_lines,
         'unstable': unstable,
+        'solver_resource_limit_hits': [m_ for u in units for m_ in u.get('rlimit', [])],
         'seed_sweeps': sweeps,
         'not_covered': cfg.get('not_covered', []),
         'samples': samples,
